@@ -72,7 +72,7 @@ func main() {
 			"rel3big (ids 2^32+7 for a node and a way, 2^40-1 for a relation, changesets from 2^32+100, versions from 65534); a pre-commit space without any skew, where Threshold(0) is inside the domain; commit-time spaces with whole-second, " +
 			"well separated uploads in which some elements come without a commit time (all parent versions / all child versions / even / odd positions of every history) and spaces that start two uploads before osm.CommitInfoStart " +
 			"(additionally: no commit time on the versions before that date); at every interior state (depth < tier depth) additionally: histories handed over unsorted, the parent versions handed over from the first deleted " +
-			"version (else the second) on, the same call twice, a failing call followed by the judged one on the same parents, the documented defaults passed explicitly, Threshold(1 ns) and Threshold(max) in the commit-time regime, " +
+			"version (else the second) on, the same call twice, a failing call followed by the judged one on the same parents, a call on all but the last parent version followed by the judged one on all of them (same objects), the documented defaults passed explicitly, Threshold(1 ns) and Threshold(max) in the commit-time regime, " +
 			"child histories handed over without their first one / two versions (parents before that reference a child that is not there yet: NoVisibleChildError, or unannotated with the later versions as updates under IgnoreInconsistency), " +
 			"Threshold combined with IgnoreInconsistency / IgnoreMissingChildren + a withheld history / ChildFilter, a ChildFilter that accepts everything, relation parents tagged type=multipolygon with outer / inner roles, " +
 			"query times 1 ns before every upload instant and in the year 2500 (default options); and the empty list of parent versions (no error)")
@@ -280,6 +280,8 @@ func (s *Space) variants() []Variant {
 		ext(Variant{Name: "twice", Thr: defaultThreshold, Twice: true, Reversed: true, KeepRefs: true}),
 		ext(Variant{Name: "twice+ignore-inconsistency", Thr: defaultThreshold, Twice: true, IgnInc: true}),
 		ext(Variant{Name: "retry-after-error", Thr: defaultThreshold, Retry: true}),
+		ext(Variant{Name: "annotated-before-the-last-version-existed", Thr: defaultThreshold, Prefix: true, KeepRefs: true}),
+		ext(Variant{Name: "annotated-before-the-last-version-existed+ignore-inconsistency", Thr: defaultThreshold, Prefix: true, IgnInc: true}),
 		ext(Variant{Name: "explicit-defaults", Thr: defaultThreshold, Explicit: true, KeepRefs: true}),
 		ext(Variant{Name: "late-child-histories", Thr: defaultThreshold, Late: 1, KeepRefs: true}),
 		ext(Variant{Name: "late-child-histories+ignore-inconsistency", Thr: defaultThreshold, Late: 1, IgnInc: true}),
@@ -791,6 +793,22 @@ func (k *worker) evalVariant(v Variant, times []time.Time) *truth {
 	if v.Twice {
 		callLibrary(f.IsWay(), p, ds, opts)
 		k.calls++
+	}
+	if v.Prefix {
+		// the incremental workflow: the same parent objects were annotated when the
+		// last version did not exist yet (its predecessor then got every later child
+		// version as an update); what that call left behind must not survive
+		q := &parents{}
+		if len(p.ways) > 1 {
+			q.ways = p.ways[:len(p.ways)-1]
+		}
+		if len(p.rels) > 1 {
+			q.rels = p.rels[:len(p.rels)-1]
+		}
+		if len(q.ways)+len(q.rels) > 0 {
+			callLibrary(f.IsWay(), q, ds, opts)
+			k.calls++
+		}
 	}
 	err, panicked := callLibrary(f.IsWay(), p, ds, opts)
 	k.calls++
